@@ -194,6 +194,8 @@ NEGATIVE_CONTROLS = [
     "n5_message_texts: different exception / log texts (removal refusal, 'Could not create/remove downtime', log lines)",
     "n6_guard_spellings: IsInEffect / IsExpired / CanBeTriggered / NotifyDowntimeEnd with equivalent guards (negated forms, ternary, merged ifs)",
     "n7_extra_bookkeeping_and_loop_form: an extra per-downtime trigger counter map, index loop with continue-guards in DowntimesStartTimerHandler",
+    "round 4: n6_guard_spellings re-run with the source tie in place (gen/c05_guards.py translates the respelled IsInEffect / IsExpired / CanBeTriggered, "
+    "guards_match_source still proves them equal to the model: 25/25 obligations, no violation); the translator + tie proof alone also pass on n1-n5, n7",
 ]
 
 
@@ -202,25 +204,35 @@ class C05(Check):
     required_theorems = ["in_downtime_iff", "in_downtime_iff_run", "expired_removed_run", "trigger_not_before_start", "depth_eq_count", "trigger_write_once", "trigger_write_once_run",
                          "trigger_only_in_window", "trigger_cascade", "trigger_cascade_deep", "flexible_trigger", "flexible_trigger_exact", "start_once", "start_once_future_counterexample",
                          "started_partial", "paused_requests_nothing", "started_counterexample", "end_once", "expired_removed", "owner_protected",
-                         "model_trace_meets_spec_partial"]
+                         "model_trace_meets_spec_partial", "start_only_on_effect", "end_exactly_once_run", "flexible_started_run", "guards_match_source"]
     technique = ("Lean 4 proof (invariants over the operation sequence) about a hand-written model of lib/icinga/downtime.cpp; correspondence by "
                  "differential execution of real Host/Service/Downtime objects under the virtual clock and the timer pump")
     level_text = ("Machine-checked theorems (Lean 4 kernel) about the executable model of Downtime::IsInEffect/IsTriggered/IsExpired/CanBeTriggered/"
                   "TriggerDowntime/Start/DowntimesStartTimerHandler/cleanup timer/RemoveDowntime and Checkable::TriggerDowntimes/GetDowntimeDepth/"
                   "IsInDowntime, including a whole-trace theorem (model_trace_meets_spec_partial: every well-formed operation sequence's model trace "
                   "satisfies every clause kind of the executable specification through the specification's own bookkeeping except the two falsified by the code "
-                  "(17 of 19; masked: fixed_started_when_triggered / fixed_end_has_start = F-C05c; the DowntimeStart-when-it-takes-effect "
-                  "clauses are proved for flexible downtimes), and run-level forms of in-downtime-iff (with trigger <= now) and expired-removed (no hypothesis on the cleanup timer); "
+                  "(18 of 20; masked: fixed_started_when_triggered / fixed_end_has_start = F-C05c; the DowntimeStart-when-it-takes-effect "
+                  "clauses are proved for flexible downtimes; new: start_only_on_effect - a DowntimeStart request is made only in the operation in which the downtime "
+                  "takes effect), and run-level forms of in-downtime-iff (with trigger <= now), expired-removed (no hypothesis on the cleanup timer), "
+                  "DowntimeStart only on taking effect (start_only_on_effect), exactly one DowntimeStart for a flexible downtime iff it took effect (flexible_started_run, runs "
+                  "without pausing) and exactly one DowntimeEnd iff the downtime that went had taken effect (end_exactly_once_run); guards_match_source proves the model's "
+                  "isTriggered / isInEffect / isExpired / canBeTriggered equal, for all instants and downtimes, to the functions gen/c05_guards.py translates from the bodies of "
+                  "Downtime::IsTriggered / IsInEffect / IsExpired / CanBeTriggered in lib/icinga/downtime.cpp on every run; "
                   "the model is tied to the code by running the real objects (direct construction as test/icinga-checkresult.cpp does, "
-                  "one case in eight through ConfigObjectUtility::CreateObject / Downtime::AddDowntime in a scratch data directory, and one in eight "
-                  "through the registered API actions schedule-downtime / remove-downtime, i.e. ApiActions::ScheduleDowntime / RemoveDowntime) on generated "
+                  "one case in eight through ConfigObjectUtility::CreateObject / Downtime::AddDowntime in a scratch data directory, one in sixteen "
+                  "through the registered API actions schedule-downtime / remove-downtime, i.e. ApiActions::ScheduleDowntime / RemoveDowntime, and one in sixteen through the "
+                  "external commands SCHEDULE_HOST/SVC_DOWNTIME / DEL_HOST/SVC_DOWNTIME, i.e. ExternalCommandProcessor::Execute with legacy ids) on generated "
                   "operation sequences and diffing every observation; the executable specification of the property is evaluated on the "
                   "implementation's own trace")
-    level_note = ("Trusted: Lean kernel (+ propext, Classical.choice, Quot.sound), sampled correspondence of the hand-written model, harness/driver. "
+    level_note = ("Trusted: Lean kernel (+ propext, Classical.choice, Quot.sound), sampled correspondence of the hand-written model (its four window predicates are "
+                  "tied to the source text by translator + theorem), harness/driver, translator gen/c05_guards.py. "
                   "One clause of the property is false of the code and carried as _partial/_counterexample: a DowntimeStart request for every FIXED downtime that took effect "
                   "(known finding F-C05c; proved for flexible ones); F-C05a/b/e are repaired (eead572, 40d44b0, 2efb740: TriggerDowntime clamps the trigger time to the downtime's own "
                   "start_time) and their theorems (start_once, flexible_trigger, trigger_not_before_start) are full.")
     trusted_base = [
+        "translator gen/c05_guards.py: parses the bodies of Downtime::IsTriggered / IsInEffect / IsExpired / CanBeTriggered (locals, if/else, return, ?:, ||, &&, !, "
+        "comparisons, +, -, min/max, the getters and the four predicates) into IcingaProofs/Gen/DowntimeGuards.lean with double -> Int; guards_match_source proves the result equal "
+        "to the model's predicates by case split + linear arithmetic (any equivalent spelling passes, any changed comparison fails; a construct outside the subset is reported as a lost anchor)",
         "modelled, not verified: times are whole seconds, so the cleanup timer's 0.1 s delay is 'the first instant strictly after'; "
         "Downtime objects get authority (Resume) right after creation, as ApiListener::UpdateObjectAuthority does for HARunOnce objects; "
         "pausing a Downtime object itself (its cleanup timer), child downtimes on other checkables (parent/child_options), ScheduledDowntime's own creation/removal, cluster sync and "
@@ -371,8 +383,9 @@ class C05(Check):
                     "takes effect through the start timer or a non-OK result) and seeded random cases (half of them with max_check_attempts 2-4): 1-5 fixed/flexible downtimes "
                     "(same / nested / adjacent / random windows, chained via triggered_by, owned by a schedule), 4-25 (thorough 4-43) operations "
                     "add / result / pump / remove / pause-resume of the checkable at instants drawn from all boundary instants +-1 plus small random steps; one case in eight "
-                    "creates checkable and downtimes through ConfigObjectUtility::CreateObject / Downtime::AddDowntime, one in eight additionally "
-                    "schedules / removes through the API actions schedule-downtime / remove-downtime. evaluations = operations; "
+                    "creates checkable and downtimes through ConfigObjectUtility::CreateObject / Downtime::AddDowntime, one in sixteen additionally "
+                    "schedules / removes through the API actions schedule-downtime / remove-downtime, one in sixteen through the external commands "
+                    "SCHEDULE_HOST/SVC_DOWNTIME and DEL_HOST/SVC_DOWNTIME (trigger and removal by legacy id). evaluations = operations; "
                     "a case counts as non-trivial when a downtime was triggered or removed in it (counted by the Lean driver)")
         # the start timer's firing is an oracle input taken from the implementation (a sentinel downtime); an oracle that
         # never fires would hide a start timer that no longer starts anything
@@ -382,6 +395,20 @@ class C05(Check):
         res.samples = runner.extract_case(save, 900) + ["..."] + runner.extract_case(save, stats["cases"])[:14]
         self._examine(res, harness, driver, save, lines, "gen")
         return res
+
+    def generate(self):
+        """Translator: the bodies of Downtime::IsTriggered / IsInEffect / IsExpired / CanBeTriggered (lib/icinga/downtime.cpp)
+        -> IcingaProofs/Gen/DowntimeGuards.lean; the theorem guards_match_source proves them equal to the model's predicates."""
+        import importlib.util
+        gen = os.path.join(core.ROOT, "gen", "c05_guards.py")
+        spec = importlib.util.spec_from_file_location("c05_guards", gen)
+        mod = importlib.util.module_from_spec(spec)
+        spec.loader.exec_module(mod)
+        try:
+            with core.Lock("lake"):
+                mod.generate(core.REPO, os.path.join(core.LEAN, "IcingaProofs", "Gen", "DowntimeGuards.lean"))
+        except mod.Lost as e:
+            raise core.TieBroken("translator:C05:anchor-lost", str(e))
 
     def matches_known(self, entry, finding):
         fn = CLASSIFIERS.get(entry.get("classifier"))
